@@ -121,6 +121,23 @@ def gen_cases(ctx, tier):
             a = [arg(rng, w, [0.0, 1.0, 2.0, 10.0, 50.0, 100.0, 0.5]) for w in pat]
             cases.append({"fn": "clamp", "args": a})
             cases.append({"fn": rng.choice(["max", "min"]), "args": a})
+    # min / max / clamp with 3-5 arguments over {unitless, px, in, cm, s, %, em} in any order: the running-extreme
+    # definition with a unitless number between two different units, incompatible units anywhere in the list
+    MIXU = ["", "", "px", "in", "cm", "s", "%", "em"]
+    MIXM = [0.5, 1.0, 2.0, 3.0, 50.0, 96.0, 100.0, 2.54, 0.25, 200.0]
+    for args in ([["1", ""], ["2", "px"], ["1", "in"]], [["1", ""], ["2", "px"], ["3", "s"]],
+                 [["1", "px"], ["2", ""], ["3", "in"], ["100", "px"]], [["1", "px"], ["1", "in"], ["2", ""]],
+                 [["2", "in"], ["3", ""], ["4", "px"]], [["1", "in"], ["96", "px"]], [["96", "px"], ["1", "in"]]):
+        for fn in ("max", "min"):
+            cases.append({"fn": fn, "args": args})
+    for _ in range(3 * n):
+        k = rng.choice([3, 3, 4, 5])
+        pool = rng.choice([["", "px", "in"], ["", "px", "in", "cm"], ["px", "in", "cm"], MIXU, ["", "px", "s"], ["", "%", "em", "px"]])
+        args = [arg(rng, rng.choice(pool), MIXM) for _ in range(k)]
+        cases.append({"fn": rng.choice(["max", "min"]), "args": args})
+    for _ in range(n // 2):
+        pool = rng.choice([["px", "in", "cm"], MIXU, ["", "%"], ["s", "px"]])
+        cases.append({"fn": "clamp", "args": [arg(rng, rng.choice(pool), MIXM) for _ in range(3)]})
     cases.append({"fn": "clamp", "args": [["0", ""], ["50", "%"], ["1", ""]]})
     cases.append({"fn": "clamp", "args": [["10", "%"], ["2", ""], ["100", "%"]]})
     # pow where the value is known without libm: (+-1)^n, 0^n, (+-2)^n for huge whole n (parity / overflow sign)
